@@ -319,6 +319,7 @@ func runC01(p *Program, r *Report) {
 	checkBuilder(p, r, "C01.sample", p.Func("linear/lut", "Build16BitToLinear"), 65536, "")
 	checkLUTWiring(p, r, "C01.wire", true)
 	checkDecodeEntries(p, r, "C01.wire")
+	checkOnceSingle(p, r, "C01.wire")
 	checkDecodeConstructors(p, r, "C01.ctor")
 	// derived bound, printed from the extracted constants
 	r.Note("C01.curve", "derived bound", "-", "Lipschitz constants on [0,1]: sRGB 2.4/1.055 = 2.275, Adobe 2.199, ProPhoto 1.8; with u = 2^-24: L·u + u/2 + 2^-53·L < 1.66e-7 < 3e-7")
